@@ -15,7 +15,7 @@ FIXED_ORDER = True   # memory.rs validates before zeroing since the fix: commit 
 
 def mc_file():
     key = rv.spec_hash("mcfile%s" % FIXED_ORDER)[:16]
-    cf = os.path.join(rv.ensure_dir(os.path.join(rv.WORK, "mc_cache")), "mcfile-%s.json" % key)
+    cf = os.path.join(rv.ensure_dir(rv.MC_CACHE), "mcfile-%s.json" % key)
     if os.path.exists(cf):
         return json.load(open(cf))
     wd = os.path.join(rv.WORK, "mc", "file")
